@@ -248,7 +248,7 @@ def run(c):
     scripts = tree_scripts(behs)
     if set(scripts) != set(small):
         raise vlib.ToolFailure("generator did not cover all configurations: %s" % sorted(scripts))
-    c.extra["exhaustive"] = {"model_states": r.distinct, "model_transitions": r.generated, "graph_depth": r.depth, "max_live": maxlive,
+    c.extra["exhaustive_graph"] = {"model_states": r.distinct, "model_transitions": r.generated, "graph_depth": r.depth, "max_live": maxlive,
                              "operations_replayed": {"%d/%s" % (k[0], LAYOUT_NAME[k[1]]): v[1] for k, v in sorted(scripts.items())}}
     c.sample({"what": "longest generated history (Size 10, default layout)",
               "behaviour": max((b for b in behs if b[0][1] == 10 and b[0][2] == 0), key=len)})
@@ -257,7 +257,7 @@ def run(c):
 
     # 3. realistic sizes: random deep histories from the same generator model
     real = [(29, 0), (30, 1), (50, 0), (61, 0), (61, 1), (100, 0), (100, 1), (255, 0), (256, 1), (300, 0), (300, 1), (600, 1)]
-    nsim, dsim = (240, 40) if c.quick else (3000, 80)
+    nsim, dsim = (240, 40) if c.quick else (2000, 60)
     cfg = vlib.write_cfg(c, "sim.cfg", "CONSTANTS MaxLive = 6  Configs = %s  Alphabet = \"real\"  D = %d  EmitAll = FALSE\n"
                          "SPECIFICATION GSpec\nCHECK_DEADLOCK FALSE\n" % (cfg_codes(real), dsim))
     r = vlib.tlc("PduRing", "PduRingGen.tla", cfg, workers=JOBS, heap="6g", simulate=(nsim + JOBS - 1) // JOBS, depth=dsim + 2, seed=c.seed)
